@@ -63,6 +63,25 @@ def _width(fn, k):
     return ws[k]
 
 
+def _digit_rule(fn):
+    """mapper_from_prior_means: `if name.isdigit(): path = self.path_for_prior(..); if len(path) > 1: name = path[-2]`."""
+    for node in T.nodes(fn, ast.If):
+        t = node.test
+        if isinstance(t, ast.Call) and T._dotted(t.func) == "name.isdigit" and not t.args:
+            inner = [n for n in ast.walk(node) if isinstance(n, ast.If) and n is not node]
+            if len(inner) != 1 or node.orelse or inner[0].orelse:
+                break
+            body = inner[0].body
+            if not (len(body) == 1 and isinstance(body[0], ast.Assign) and T._dotted(body[0].targets[0]) == "name"
+                    and ast.unparse(body[0].value).replace(" ", "") == "path[-2]"):
+                break
+            paths = T.assigns(fn, "path")
+            if len(paths) != 1 or "path_for_prior" not in ast.unparse(paths[0].value):
+                break
+            return inner[0].test
+    raise T.TranslationError("the rule for number-named priors (name = path_for_prior(prior)[-2] when the path has a parent) changed")
+
+
 def _uniform_kw(fn, name):
     cs = T.calls(fn, "UniformPrior")
     if len(cs) != 1 or cs[0].args:
@@ -101,6 +120,8 @@ SPECS = [
            doc="width when a is given"),
     T.Spec("pm_rel_width", ABSTRACT, "AbstractPriorModel.mapper_from_prior_means", lambda f: _width(f, 1), F2("r", "mean"), "float",
            doc="width when r is given"),
+    T.Spec("digit_has_parent", ABSTRACT, "AbstractPriorModel.mapper_from_prior_means", _digit_rule, [("len_path", "int")], "bool",
+           doc="a number-named prior takes the name of the enclosing collection when there is one"),
     T.Spec("wm_relative", WIDTH, "RelativeWidthModifier.__call__", lambda f: T.returns(f)[-1], F2("value", "mean"), "float"),
     T.Spec("wm_absolute", WIDTH, "AbsoluteWidthModifier.__call__", lambda f: T.returns(f)[-1], [("value", "float")], "float"),
     T.Spec("uf_lower", ABSTRACT, "AbstractPriorModel.mapper_from_uniform_floats", lambda f: _uniform_kw(f, "lower_limit"),
@@ -238,14 +259,10 @@ def candidates(prog, i, wms):
 
 
 def shared_with_different_config(prog, wms):
-    """Pool priors that occupy several places whose configuration differs."""
+    """Pool priors that occupy several places configured under different (class, name) keys."""
     pl = {}
     places(prog["root"], pl)
-    out = []
-    for i, ps in pl.items():
-        if len(ps) > 1 and len({repr(place_config(prog, p, i)) for p in ps}) > 1:
-            out.append(i)
-    return out
+    return [i for i, ps in pl.items() if len({(p[1], p[2]) for p in ps}) > 1]
 
 
 def tightened(spec, lim):
@@ -429,6 +446,21 @@ def specialise(prog, rng):
             feats.add("const")
     walk_models(prog["root"], convert)
     renumber(prog)
+
+    def rekey(e):
+        # priors held directly by a named collection, and list-style collections (number-named priors) held under a name,
+        # get keys for which ModelInstance is configured (harness/config/priors/autofit/mapper/model.yaml)
+        if e["t"] != "coll" or e["form"] not in ("dict", "kwargs"):
+            return
+        free = [k for k in ("g", "lens", "one") if k not in [k2 for k2, _ in e["items"]]]
+        for item in e["items"]:
+            sub = item[1]
+            direct = sub["t"] == "prior"
+            numbered = sub["t"] == "coll" and sub["form"] in ("list", "append") and any(x["t"] == "prior" for _, x in sub["items"])
+            if (direct or numbered) and free and item[0] != "copy" and rng.random() < 0.7:
+                item[0] = free.pop(rng.randrange(len(free)))
+                feats.add("configured-collection-key")
+    walk_models(prog["root"], rekey)
     for spec in prog["pool"]:
         if spec["family"] in ("loguniform", "gaussian") and rng.random() < 0.2:
             lo = abs(unhex(spec["lo"])) + 0.25
@@ -595,6 +627,7 @@ def spec_num(s):
     if s["family"] == "gaussian":
         d["mean"], d["sigma"] = unhex(s["mean"]), unhex(s["sigma"])
     d["vf"] = s.get("vf")
+    d["median"] = s.get("median")
     d["wm"] = None if not s.get("wm") else (s["wm"]["type"], unhex(s["wm"]["value"]))
     return d
 
@@ -630,14 +663,12 @@ def expect_success(c):
             return "fewer limits than parameters"
         for s, (lo, hi) in zip(prog["pool"], mode["limits"]):
             lo, hi = unhex(lo), unhex(hi)
-            if s["family"] == "uniform":
+            if s["family"] in ("uniform", "loggaussian"):     # (a log-gaussian prior raises TypeError before: known finding)
                 if max(lo, unhex(s["lo"])) >= min(hi, unhex(s["hi"])):
                     return "requested limits do not intersect the prior's range"
             elif s["family"] == "gaussian":
                 if hi < lo:
                     return "requested limits are reversed"
-            elif s["family"] == "loggaussian":
-                return None           # tightening it must work like for any other prior (it raises TypeError: known finding)
             else:
                 if max(0.000001, lo) >= hi:
                     return "requested limits are empty"
@@ -649,6 +680,7 @@ KNOWN_BY_MESSAGE = [
     # (prefix of the oracle message, finding class that can explain it, required exception or None)
     ("passing raised", "bounded-absorbed", "PriorException"),
     ("passing raised", "with-limits-loggaussian", "TypeError"),
+    ("unsatisfiable limits raised", "with-limits-loggaussian", "TypeError"),
     ("configuration of a shared prior", "shared-prior-config-mixup", None),
     ("the new model lost the non-float constants", "collection-nonfloat-constant", None),
     ("tightened prior does not map the unit interval into its limits", "with-limits-keeps-message", None),
@@ -742,8 +774,9 @@ def oracle(c, r):
                 continue
             if sp["sigma"] < 0:
                 fails.append("parameter %d: negative width %r" % (i, sp["sigma"]))
-            if sp["vf"] and 0 < sp["sigma"] < INF and abs(m) < INF and sp["vf"][1] != m.hex():
-                fails.append("parameter %d: the median of the new prior is %s, not its inferred value %r" % (i, sp["vf"][1], m))
+            if sp["median"] and 0 < sp["sigma"] < 1e300 and abs(m) < 1e300 and not (
+                    sp["median"].startswith(("0x", "-0x")) and unhex(sp["median"]) == m):
+                fails.append("parameter %d: the median of the new prior is %s, not its inferred value %r" % (i, sp["median"], m))
             ok = False
             for w, lim in candidates(prog, i, c.get("wms")):
                 if mode["a"] is not None:
@@ -786,7 +819,7 @@ def oracle(c, r):
                     want = spec_num(nw["new"]) if "new" in nw else spec_num(orig["specs"][nw["pool"]])
             if want is None:
                 want = old
-            if any(sp[key] != want[key] for key in want if key != "vf"):
+            if any(sp[key] != want[key] for key in want if key not in ("vf", "median")):
                 fails.append("parameter %d: prior %s is not the replacement %s" % (i, sp, want))
     # 4. structure, sharing, fixed values: the new model builds the same instance from the same values
     probe = [unhex(x) for x in c["probe"]]
@@ -937,17 +970,16 @@ def run(ctx):
     ctx.assumptions = [
         "tuple members are priors or floats named <argument>_<i>; no attribute of a Model is named <tuple argument>_<suffix>",
         "arithmetic theorems are over exact rationals (generated *_Q leaves); binary64 behaviour is compared bit-for-bit by the correspondence",
-        "config lookup (autoconf) is an oracle table keyed by (class name, attribute name)",
+        "config lookup (autoconf) is an oracle table keyed by (class name, attribute name); inheritance from a parent class is "
+        "materialised by the harness",
     ]
     ctx.notes["observations-not-counted"] = [
-        "Prior.with_limits keeps the old message object: the tightened UniformPrior maps the unit interval onto the OLD range and "
-        "rejects values outside the new limits (PriorLimitException); GaussianPrior/LogUniformPrior.with_limits are classmethods that "
-        "ignore the old prior (Gaussian: centred between the limits, sigma = hi - lo, infinite limits). Modelled as they are.",
+        "GaussianPrior.with_limits / LogUniformPrior.with_limits are classmethods that ignore the old prior (Gaussian: centred between "
+        "the limits, sigma = hi - lo, infinite limits). Modelled as they are (C12_tightened_prior).",
         "copy_with_fixed_priors on a frozen model raises AssertionError (the deep copy stays frozen); frozen models are not generated "
         "for that mode.",
-        "Model.gaussian_prior_model_for_arguments unfreezes the original Model objects (children of a frozen Collection end up "
-        "unfrozen while the Collection stays frozen); assertions are not carried over to the passed model. Neither is part of the "
-        "property text.",
+        "Model.gaussian_prior_model_for_arguments unfreezes the original Model objects; assertions are not carried over to the passed "
+        "model. Neither is part of the property text.",
     ]
     try:
         infos = regenerate()
@@ -1043,14 +1075,19 @@ def run(ctx):
 MANIFEST = {
     "text": "Coq 8.16 theorems over a model of prior passing on the C01 model tree (rebuild substituting priors by identity for "
             "Model/Collection/tuple/arithmetic nodes; zip of id-ordered parameters with inferred values; widths and limits from leaf "
-            "formulas regenerated from /repo by a fail-closed translator): same paths, parameter count, order and sharing, the new prior "
-            "of each parameter derived from that parameter's own value, identical instances (constants, tuples, derived values) for "
-            "corresponding arguments, success and non-negative widths characterised exactly (full for absolute/bounded over exact "
-            "numbers, refuted + partial for relative widths on negative values, constants held by collections, digit-named priors of a "
-            "root collection); tied to the code by bit-exact vm_compute correspondence of the passed model, its priors and exceptions on "
-            "generated compositions x modes x vectors of any sign/magnitude, plus a direct property oracle incl. the af.Result route",
-    "note": "Trusted: Coq kernel + vm_compute; translator; harness abstraction of live objects; config table read by the harness. Not "
-            "modelled: AnnotationPriorModel, Array models, deferred arguments, the message object carried by Prior.with_limits, "
-            "Result.model caching, jax; binary64 totality of model_bounded holds only when value +- b does not round to value.",
+            "formulas regenerated from /repo by a fail-closed translator): same paths, parameter count, order and sharing; identical "
+            "instances (constants, tuples, derived values) for corresponding arguments; the priors reported for the new model are, in "
+            "id order, those derived from each parameter's own value (means, bounded), own limits (with_limits, by prior family) or own "
+            "replacement; success characterised per mode (full over exact numbers for absolute / relative / configured widths of any "
+            "sign and for bounded; refuted in binary64 for bounded when value +- b rounds to value); no produced Gaussian has a negative "
+            "width; an unshared parameter is configured under its own (class, attribute), refuted for a prior shared between a model and "
+            "its child (known finding). Tied to the code by bit-exact vm_compute correspondence of the passed model, its priors and "
+            "exceptions on generated compositions x modes x vectors of any sign/magnitude, plus a direct property oracle (incl. the "
+            "af.Result routes, non-float constants of collections, where a tightened prior maps the unit interval)",
+    "note": "Trusted: Coq kernel + vm_compute; translator; harness abstraction of live objects; config table read by the harness. Known "
+            "findings (suppressed, narrow classes): shared-prior-config-mixup, collection-nonfloat-constant, with-limits-loggaussian, "
+            "with-limits-keeps-message, bounded-absorbed. Not modelled: AnnotationPriorModel, Array models, deferred arguments, "
+            "subtraction / negated priors, excluded_classes of copy_with_fixed_priors, the message object of a prior (oracle only), "
+            "Result.model caching, jax; arithmetic theorems are over exact rationals, binary64 only on a stated grid and by correspondence.",
     "technique": "machine-checked proof in Coq (hand-written model over the C01 tree + translated leaf formulas) + vm_compute correspondence",
 }
